@@ -476,6 +476,15 @@ impl Driver for RealDriver {
   }
 }
 
+fn note_sent(held_keys: &mut Vec<KeyCode>, evs: &Vec<Event>) {
+  for ev in evs {
+    match ev {
+      Pressed(k) => if !held_keys.contains(k) { held_keys.push(*k) },
+      Released(k) => held_keys.retain(|h| h != k)
+    }
+  }
+}
+
 fn do_remapping_loop_one_device(driver: &mut impl Driver, layout: Layout, verbose: bool) -> Result<(), String> {
   let mut mapper = key_transforms::Mapper::for_layout(&layout);
   let mut working_repeat: WorkingRepeat = WorkingRepeat::Idle;
@@ -484,6 +493,8 @@ fn do_remapping_loop_one_device(driver: &mut impl Driver, layout: Layout, verbos
   
   let mut in_tablet_mode: bool = false;
   let mut restart_count: i32 = 0;
+  // Keys currently down on the synthetic keyboard, so that a repeat chord never touches them
+  let mut held_keys: Vec<KeyCode> = Vec::new();
   
   if verbose { eprintln!("Starting remapping loop."); }
   
@@ -511,13 +522,15 @@ fn do_remapping_loop_one_device(driver: &mut impl Driver, layout: Layout, verbos
             WorkingRepeat::Repeating { keys, next_wakeup, interval_ms } => {
               if !in_tablet_mode {
                 let mut repeat_send = Vec::new();
-                for key in &keys {
+                for key in keys.iter().filter(|k| !held_keys.contains(k)) {
                   repeat_send.push(Pressed(*key));
                 }
-                for key in (&keys).iter().rev() {
+                for key in keys.iter().rev().filter(|k| !held_keys.contains(k)) {
                   repeat_send.push(Released(*key));
                 }
-                driver.send(&repeat_send)?;
+                if !repeat_send.is_empty() {
+                  driver.send(&repeat_send)?;
+                }
                 working_repeat = WorkingRepeat::Repeating {
                   keys,
                   next_wakeup: next_wakeup + Duration::from_millis(interval_ms as u64),
@@ -559,6 +572,7 @@ fn do_remapping_loop_one_device(driver: &mut impl Driver, layout: Layout, verbos
                         
                         if !evs_out.is_empty() {
                           driver.send(&evs_out)?;
+                          note_sent(&mut held_keys, &evs_out);
                         }
                         
                         working_repeat = match step_out.repeat {
@@ -592,6 +606,7 @@ fn do_remapping_loop_one_device(driver: &mut impl Driver, layout: Layout, verbos
                           let release_events = mapper.release_all();
                           if !release_events.is_empty() {
                             driver.send(&release_events)?;
+                            note_sent(&mut held_keys, &release_events);
                           }
                         },
                         Off => {
@@ -600,6 +615,7 @@ fn do_remapping_loop_one_device(driver: &mut impl Driver, layout: Layout, verbos
                           let release_events = mapper.release_all();
                           if !release_events.is_empty() {
                             driver.send(&release_events)?;
+                            note_sent(&mut held_keys, &release_events);
                           }
                         }
                       }
